@@ -929,6 +929,21 @@ def gen_late_config(r, cases, thorough):
         cases.append(cfg(mode, ndev, src, t0=r.choice(T0S)) + ' | ' + ' ; '.join(ops))
 
 
+def gen_wrap_edges(r, cases, thorough):
+    """claim windows whose end falls on the values the 32-bit scheduler treats specially (2^32-1 = 'disabled', 0) or next to them: the claim
+    starts 250 ms before (seed C04-15); sends of the claiming device 1 ms .. 251 ms later"""
+    for end in (0xFFFFFFFF, 0, 1, 0xFFFFFFFE, 0x7FFFFFFF, 0x80000000):
+        for ndev in (1, 2):
+            t0 = (end - 250) % M32
+            if t0 < 2000:
+                t0 += M32
+            k = ndev - 1
+            ops = ['C %d' % k]
+            for dt in (1, 99, 100, 49, 1, 1, 50):
+                ops += ['T %d' % dt, smsg(r, k, pgn=127250, n=8), 'P' if r.random() < 0.4 else smsg(r, 0, pgn=127488, n=8)]
+            cases.append(cfg(r.choice([1, 2]), ndev, 21, t0=t0) + ' | ' + ' ; '.join(ops))
+
+
 def gen_api(r, cases, thorough):
     """public calls of the application (SendProductInformation, SendConfigurationInformation, SendTx/RxPGNList, SendHeartbeat, SendIsoAddressClaim,
     Restart, SetDeviceInformation[Instances], SetMode, list setters): inside and outside claim windows, at the null address, on cold nodes"""
@@ -972,4 +987,5 @@ def gen(seed, tier):
     for _ in range(150 if not thorough else 3000):
         cases.append(random_history(r, n_ops=r.choice([10, 25, 40])))
     gen_api(r, cases, thorough)
+    gen_wrap_edges(r, cases, thorough)
     return cases
